@@ -1,5 +1,7 @@
 (* C10 Scaling completes to a balanced full partition and frees only empty chunks.  Statements only. *)
-From UM Require Import Base.BytesDef Model.Ranges Model.Broker Proofs.BrokerScale.
+From UM Require Import Base.BytesDef Model.Ranges Model.Broker Proofs.BrokerPartRanges Proofs.BrokerPartDefs Proofs.BrokerScale
+  Proofs.BrokerPartMigrateBase Proofs.BrokerBalanceDefs Proofs.BrokerBalance Proofs.BrokerBalanceCommit Proofs.BrokerBalanceProgress
+  Proofs.BrokerBalanceScale.
 
 (* scaling and config requests are refused while a migration is running, and the cluster is left unchanged *)
 Theorem C10_refused_while_migrating : forall s name cl o,
@@ -26,6 +28,84 @@ Check C10_release_only_empty : forall s name cl cl' c,
   In c (cl_chunks cl) -> ~ In c (cl_chunks cl') ->
   ck_stable0 c = None /\ ck_stable1 c = None /\ ck_mig0 c = [] /\ ck_mig1 c = [].
 Print Assumptions C10_release_only_empty.
+
+
+(* ---------- completion: balance ----------
+   share m i = SLOT_NUM / m + (1 if i < SLOT_NUM mod m): the final size of master i among m masters.
+   balance_inv (BrokerBalanceDefs.v): for some k, every master of the first k chunks has stable + incoming slots = share (2k) index,
+   every later chunk has no stable slots and only outgoing entries.
+   settled k cl (BrokerBalanceScale.v): not migrating, the masters of the first k chunks hold exactly share (2k) i slots, every later chunk is
+   slot-less and entry-less, and the stable slots total 16384 (they are a partition by C01).
+   drain_op name: a commit on `name` (any descriptor, any order), a failover of any proxy, or a role rebalance.
+   successes s ops: the number of commits in ops that succeed when ops is run from s. *)
+
+Theorem C10_balance_invariant : forall s, reachable s -> forall name cl, In (name, cl) (st_clusters s) -> balance_inv (cl_chunks cl).
+Proof. exact reachable_balance. Qed.
+Check C10_balance_invariant : forall s, reachable s -> forall name cl, In (name, cl) (st_clusters s) -> balance_inv (cl_chunks cl).
+Print Assumptions C10_balance_invariant.
+
+(* master slot counts differ by at most one *)
+Theorem C10_shares_differ_by_at_most_one : forall m i j, share m i <= share m j + 1.
+Proof. exact share_close. Qed.
+Check C10_shares_differ_by_at_most_one : forall m i j, share m i <= share m j + 1.
+Print Assumptions C10_shares_differ_by_at_most_one.
+
+(* any scale-out: after the planner accepted, ANY script of commits (any order, stale or repeated descriptors), failovers and rebalances that
+   contains as many successful commits as migrations were created ends settled on ALL chunks *)
+Theorem C10_scale_out_completes : forall s name cl ops,
+  reachable s -> alookup name (st_clusters s) = Some cl -> snd (step s (OMigrateSlots name)) = ROk ->
+  Forall (drain_op name) ops ->
+  let s1 := fst (step s (OMigrateSlots name)) in
+  exists cl1, alookup name (st_clusters s1) = Some cl1 /\
+    (successes s1 ops = pending cl1 ->
+     exists cl', alookup name (st_clusters (run s1 ops)) = Some cl' /\ settled (length (cl_chunks cl)) cl').
+Proof. exact scale_out_completes. Qed.
+Check C10_scale_out_completes : forall s name cl ops,
+  reachable s -> alookup name (st_clusters s) = Some cl -> snd (step s (OMigrateSlots name)) = ROk ->
+  Forall (drain_op name) ops ->
+  let s1 := fst (step s (OMigrateSlots name)) in
+  exists cl1, alookup name (st_clusters s1) = Some cl1 /\
+    (successes s1 ops = pending cl1 ->
+     exists cl', alookup name (st_clusters (run s1 ops)) = Some cl' /\ settled (length (cl_chunks cl)) cl').
+Print Assumptions C10_scale_out_completes.
+
+(* any scale-in to n nodes: the same, settled on the first n/4 chunks; exactly the trailing chunks are slot-less *)
+Theorem C10_scale_in_completes : forall s name n cl ops,
+  reachable s -> alookup name (st_clusters s) = Some cl -> snd (step s (OScaleDown name n)) = ROk ->
+  Forall (drain_op name) ops ->
+  let s1 := fst (step s (OScaleDown name n)) in
+  (N.to_nat (n / 4) < length (cl_chunks cl))%nat /\
+  exists cl1, alookup name (st_clusters s1) = Some cl1 /\
+    (successes s1 ops = pending cl1 ->
+     exists cl', alookup name (st_clusters (run s1 ops)) = Some cl' /\ settled (N.to_nat (n / 4)) cl').
+Proof. exact scale_in_completes. Qed.
+Check C10_scale_in_completes : forall s name n cl ops,
+  reachable s -> alookup name (st_clusters s) = Some cl -> snd (step s (OScaleDown name n)) = ROk ->
+  Forall (drain_op name) ops ->
+  let s1 := fst (step s (OScaleDown name n)) in
+  (N.to_nat (n / 4) < length (cl_chunks cl))%nat /\
+  exists cl1, alookup name (st_clusters s1) = Some cl1 /\
+    (successes s1 ops = pending cl1 ->
+     exists cl', alookup name (st_clusters (run s1 ops)) = Some cl' /\ settled (N.to_nat (n / 4)) cl').
+Print Assumptions C10_scale_in_completes.
+
+(* termination measure: every successful commit removes exactly one pending migration; failovers and rebalances keep the count *)
+Theorem C10_commits_drain : forall ops s name cl,
+  store_part_inv s -> alookup name (st_clusters s) = Some cl -> Forall (drain_op name) ops ->
+  exists cl', alookup name (st_clusters (run s ops)) = Some cl' /\ (pending cl' + successes s ops)%nat = pending cl.
+Proof. exact run_drain. Qed.
+Check C10_commits_drain : forall ops s name cl,
+  store_part_inv s -> alookup name (st_clusters s) = Some cl -> Forall (drain_op name) ops ->
+  exists cl', alookup name (st_clusters (run s ops)) = Some cl' /\ (pending cl' + successes s ops)%nat = pending cl.
+Print Assumptions C10_commits_drain.
+
+(* the planners never panic (no usize underflow, no failed expect) and the model's loop fuel always suffices, on every reachable store *)
+Theorem C10_planners_no_panic : forall s name n, reachable s ->
+  snd (migrate_slots s name) <> Panic /\ snd (migrate_slots s name) <> Fail E_BadChoice /\ snd (migrate_slots_to_scale_down s name n) <> Panic /\ snd (migrate_slots_to_scale_down s name n) <> Fail E_BadChoice.
+Proof. exact reachable_planners_no_panic. Qed.
+Check C10_planners_no_panic : forall s name n, reachable s ->
+  snd (migrate_slots s name) <> Panic /\ snd (migrate_slots s name) <> Fail E_BadChoice /\ snd (migrate_slots_to_scale_down s name n) <> Panic /\ snd (migrate_slots_to_scale_down s name n) <> Fail E_BadChoice.
+Print Assumptions C10_planners_no_panic.
 
 (* non-vacuity: a migrating cluster exists and refuses *)
 Definition ex_ops : list op :=
